@@ -40,7 +40,7 @@ def _rate(rng, params, pos_states, any_states, bounded_only, time_dep=True):
 
 
 def gen_events(rng, limits="default", closed=False, min_states=1, max_states=5, min_events=1, max_events=5,
-               time_dep=True, csafe=False, max_mag=3, sym_mag=False):
+               time_dep=True, csafe=False, max_mag=3, sym_mag=False, drift=False):
     """limits: 'default' (all (0,None) via plain names), 'mixed' (lower / upper / two-sided / absent per state)."""
     nS = rng.randint(max(min_states, 2 if closed else 1), max_states)
     nP = rng.randint(1, 4)
@@ -83,8 +83,15 @@ def gen_events(rng, limits="default", closed=False, min_states=1, max_states=5, 
         bounded_only = grows and not all(lims[states.index(t[2])][1] is not None for t in trs if t[0] == "B")
         events.append({"rate": _rate(rng, params, pos, states, bounded_only, time_dep), "trans": trs})
     decl = "limits" if limits != "default" else rng.choice(["list", "list", "string-comma", "limits"])
+    odes = []
+    if drift:
+        # explicit ODE terms beside the events (tau-leap adds them as f*tau to the proposal): decay, constant in-/outflow
+        for s_ in rng.sample(states, rng.randint(1, min(2, nS))):
+            p = rng.choice(params)
+            form = rng.choice(["decay", "in", "out", "in", "out"])
+            odes.append([s_, {"decay": "-%s*%s" % (p, s_) if s_ in pos else "-%s" % p, "in": "%s" % p, "out": "-%s" % p}[form]])
     return {"states": states, "state_decl": decl, "params": params, "param_decl": "list", "derived": [],
-            "events": events, "odes": [], "limits": lims}
+            "events": events, "odes": odes, "limits": lims}
 
 
 def initial_state(rng, spec, lo=0, hi=30, boundary_prob=0.2):
